@@ -208,6 +208,13 @@ pub fn run(tier: &str, seed: u64) -> i32 {
             lens.push(l);
         }
     }
+    // incompressible strings between LIMIT/2 and LIMIT: the packed form is the raw one and its base64 text is
+    // longer than LIMIT characters from 3/4 LIMIT on (the encoder itself refuses above ~LIMIT - LIMIT/256,
+    // where zstd's output no longer fits its buffer)
+    let mut incompressible: Vec<usize> = vec![limit * 3 / 4 - 2, limit * 3 / 4 - 1, limit * 3 / 4, limit * 3 / 4 + 1, limit - limit / 128];
+    if thorough {
+        incompressible.extend([limit * 5 / 8, limit * 7 / 8, limit - limit / 200, limit - limit / 256, limit - limit / 300]);
+    }
     let mut big: Vec<Vec<u8>> = Vec::new();
     for l in &lens {
         for c in 0..5 {
@@ -216,6 +223,10 @@ pub fn run(tier: &str, seed: u64) -> i32 {
             }
             big.push(content(c, *l));
         }
+    }
+    for l in &incompressible {
+        big.push(content(4, *l));
+        lens.push(*l);
     }
     let all: Vec<&Vec<u8>> = small.iter().chain(big.iter()).collect();
     let n_small = small.len();
@@ -287,7 +298,7 @@ pub fn run(tier: &str, seed: u64) -> i32 {
     let mut ev = Evidence::new("C15", tier, seed, "exploration");
     ev.coverage = json!({
         "evaluations": a.evals.load(Ordering::Relaxed), "distinct_nontrivial": a.distinct.load(Ordering::Relaxed),
-        "rule": "byte strings: all of length <= 1, all of length 2 (thorough; quick: a seed-rotated slice plus all with a 0x00 / 0xff byte or equal bytes), and lengths {3,31,32,33,1000,65536,LIMIT/2,LIMIT-64..LIMIT+2} x 5 content classes, each packed with the published encoder and decoded with 0..3 '=' appended; hand-forced raw / nada / zstd payloads of LIMIT-1, LIMIT, LIMIT+1 bytes with and without declared frame size; 64 MiB bombs; prefixes 3..255; degenerate and truncated strings; 12 payloads x {deploy, call, transact} x padding through the hex field and through the base64 field on twin instances. distinct = strings the encoder packed",
+        "rule": "byte strings: all of length <= 1, all of length 2 (thorough; quick: a seed-rotated slice plus all with a 0x00 / 0xff byte or equal bytes), and lengths {3,31,32,33,1000,65536,LIMIT/2,LIMIT-64..LIMIT+2} x 5 content classes, incompressible strings of 3/4 LIMIT - 2 .. 3/4 LIMIT + 1 and LIMIT - LIMIT/128 bytes (thorough: five more lengths between 5/8 LIMIT and LIMIT - LIMIT/300), each packed with the published encoder and decoded with 0..3 '=' appended; hand-forced raw / nada / zstd payloads of LIMIT-1, LIMIT, LIMIT+1 bytes with and without declared frame size; 64 MiB bombs; prefixes 3..255; degenerate and truncated strings; 12 payloads x {deploy, call, transact} x padding through the hex field and through the base64 field on twin instances. distinct = strings the encoder packed",
         "samples": samples,
         "encoder_refused": a.encoder_refused.load(Ordering::Relaxed), "forced_boundary_cases": forced,
         "prefix_chosen_by_encoder": {"raw": a.prefix_seen[0].load(Ordering::Relaxed), "nada": a.prefix_seen[1].load(Ordering::Relaxed), "zstd": a.prefix_seen[2].load(Ordering::Relaxed)},
